@@ -183,7 +183,7 @@ def run(run):
         "E2 + R3: clipPath with k children from {rect, circle, triangle, pentagram (nonzero != evenodd), two nested same-direction squares}, k = 1 full product, k = 2 over "
         "15 (shape, rule) options, k = 3 over a 3-shape library (thorough) x clip-rule {nonzero, evenodd on the child, evenodd in the child's style, evenodd inherited from the clipPath element} "
         "x transform on clipPath x transform on child x target {nonzero shape, evenodd self-overlapping shape, group of two shapes, use} x target transform x clipPath clipped by a second "
-        "clipPath x 0-2 clipped+transformed ancestor groups. A clipPath that has a transform and a clip-path of its own is read as: the inner reference is resolved in the user space that includes the clipPath's transform (by analogy with clip-path on any other transformed element). Oracle: paint stacks/composites of source vs "
+        "clipPath (a plain ellipse, or one where the fill rule matters: pentagram without rule, pentagram with clip-rule=evenodd on that clipPath, ring with the rule on the child) x 0-2 clipped+transformed ancestor groups. A clipPath that has a transform and a clip-path of its own is read as: the inner reference is resolved in the user space that includes the clipPath's transform (by analogy with clip-path on any other transformed element). Oracle: paint stacks/composites of source vs "
         "output equal outside the band; no clip-path/clipPath in the output (R4). Non-trivial = the clip removes >= 20 and keeps >= 20 lattice points of the unclipped target."
     )
     run.assumptions = ["clipPathUnits=objectBoundingBox and clip-path on clipPath children are outside the statement's grammar"]
